@@ -12,7 +12,7 @@ sys.setrecursionlimit(1000000)
 
 
 class Term:
-    __slots__ = ("op", "w", "args", "val", "id")
+    __slots__ = ("op", "w", "args", "val", "id", "cm")
 
     def __repr__(self):
         if self.op == "c":
@@ -24,11 +24,14 @@ class Term:
 
 _table = {}
 _next_id = [0]
+_ext_memo = {}
 
 
 def reset():
     _table.clear()
     _next_id[0] = 0
+    _assume_memo.clear()
+    _ext_memo.clear()
 
 
 def n_terms():
@@ -46,6 +49,20 @@ def _mk(op, w, args, val=None):
         t.val = val
         t.id = _next_id[0]
         _next_id[0] += 1
+        # cm: over-approximate set (bit mask) of the conditions that occur in the if-then-else /
+        # concatenation / extraction structure of the term; lets assume_deep stop early
+        if op == "ite":
+            t.cm = (1 << (args[0].id & 1023)) | args[1].cm | args[2].cm
+            if args[0].op in ("and", "or", "not"):
+                for q in args[0].args:
+                    t.cm |= 1 << ((q.args[0].id if q.op == "not" else q.id) & 1023)
+        elif op in ("cat", "ext"):
+            m = 0
+            for a in args:
+                m |= a.cm
+            t.cm = m
+        else:
+            t.cm = 0
         _table[key] = t
     return t
 
@@ -101,7 +118,12 @@ def ext(x, hi, lo):
         out.reverse()
         return cat(out)
     if op == "ite":
-        return ite(x.args[0], ext(x.args[1], hi, lo), ext(x.args[2], hi, lo))
+        key = (x.id, hi, lo)
+        r = _ext_memo.get(key)
+        if r is None:
+            r = ite(x.args[0], ext(x.args[1], hi, lo), ext(x.args[2], hi, lo))
+            _ext_memo[key] = r
+        return r
     if op in ("and", "or", "xor") :
         return _mk_bitwise(op, [ext(a, hi, lo) for a in x.args])
     if op == "not":
@@ -228,8 +250,20 @@ def implies(a, b):
     return or_(not_(a), b)
 
 
+def _ite_raw(c, a, b):
+    """rebuild an if-then-else whose branches are already simplified under c"""
+    if a is b:
+        return a
+    if c.op == "c":
+        return a if c.val else b
+    if c.op in ("not", "and", "or") or a.w == 1:
+        return ite(c, a, b)
+    return _mk("ite", a.w, (c, a, b))
+
+
 def ite(c, a, b):
-    """c: 1-bit term"""
+    """c: 1-bit term.  Normal form: a decision list - conditions are never negations, conjunctions
+    or disjunctions (those are split), and each branch is simplified under its own condition."""
     if a is None:
         return None
     assert c.w == 1 and a.w == b.w, (c.w, a.w, b.w)
@@ -239,6 +273,20 @@ def ite(c, a, b):
         return a
     if c.op == "not":
         return ite(c.args[0], b, a)
+    if a.w > 1 or a.op == "ite" or b.op == "ite":
+        # split conjunctions / disjunctions, simplifying the branches under each literal first
+        if c.op == "and":
+            c1 = c.args[0]
+            rest = _mk_bitwise("and", list(c.args[1:]))
+            return ite(c1, ite(rest, assume_deep(a, c1, 1), assume_deep(b, c1, 1)), assume_deep(b, c1, 0))
+        if c.op == "or":
+            c1 = c.args[0]
+            rest = _mk_bitwise("or", list(c.args[1:]))
+            return ite(c1, assume_deep(a, c1, 1), ite(rest, assume_deep(a, c1, 0), assume_deep(b, c1, 0)))
+    a = assume_deep(a, c, 1)
+    b = assume_deep(b, c, 0)
+    if a is b:
+        return a
     if a.w == 1 and a.op == "c" and b.op == "c":
         return c if a.val == 1 else not_(c)
     if a.w == 1:
@@ -246,13 +294,64 @@ def ite(c, a, b):
             return or_(c, b) if a.val else and_(not_(c), b)
         if b.op == "c":
             return or_(not_(c), a) if b.val else and_(c, a)
-    if a.op == "ite" and a.args[0] is c:
-        a = a.args[1]
-    if b.op == "ite" and b.args[0] is c:
-        b = b.args[2]
-    if a is b:
-        return a
     return _mk("ite", a.w, (c, a, b))
+
+
+_assume_memo = {}
+
+
+def assume_deep(t, c, val, depth=2000):
+    """simplify t knowing the 1-bit term c has value val, following if-then-else, concatenation
+    and extraction structure only"""
+    if c.op == "not":
+        c, val = c.args[0], 1 - val
+    if t.op not in ("ite", "cat", "ext"):
+        return assume(t, c, val) if t.w == 1 else t
+    if not (t.cm >> (c.id & 1023)) & 1:
+        return t
+    key = (t.id, c.id, val)
+    r = _assume_memo.get(key)
+    if r is not None:
+        return r
+    if depth <= 0:
+        r = t
+    elif t.op == "cat":
+        parts = [assume_deep(p, c, val, depth - 1) for p in t.args]
+        r = t if all(p is q for p, q in zip(parts, t.args)) else cat(parts)
+    elif t.op == "ext":
+        x = assume_deep(t.args[0], c, val, depth - 1)
+        r = t if x is t.args[0] else ext(x, t.val[0], t.val[1])
+    else:
+        c2, x, y = t.args
+        if c2 is c:
+            r = x if val else y
+        else:
+            x2 = assume_deep(x, c, val, depth - 1)
+            y2 = assume_deep(y, c, val, depth - 1)
+            c3 = assume(c2, c, val)
+            if x2 is x and y2 is y and c3 is c2:
+                r = t
+            elif c3 is c2:
+                r = _ite_raw(c2, x2, y2)
+            else:
+                r = ite(c3, x2, y2)
+    _assume_memo[key] = r
+    return r
+
+
+def assume(t, c, val):
+    """shallow simplification of the 1-bit term t knowing that the 1-bit term c has value val"""
+    if t is c:
+        return const(1, val)
+    if t.op == "not" and t.args[0] is c:
+        return const(1, 1 - val)
+    if t.op == "ite" and t.args[0] is c:
+        return t.args[1] if val else t.args[2]
+    if t.op in ("and", "or") and t.w == 1:
+        for a in t.args:
+            if a is c or (a.op == "not" and a.args[0] is c):
+                return _mk_bitwise(t.op, [assume(x, c, val) for x in t.args])
+    return t
 
 
 def eq(a, b):
@@ -339,6 +438,98 @@ def ule(a, b):
     if a is b:
         return true()
     return _mk("ule", 1, (a, b))
+
+
+def restrict_bit(x, pos, val, memo=None):
+    """Simplify x under the assumption that bit `pos` of x equals `val`: alternatives of an
+    if-then-else whose bit is the opposite constant cannot be the ones selected and are dropped."""
+    if memo is None:
+        memo = {}
+    key = (x.id, pos)
+    r = memo.get(key)
+    if r is not None:
+        return r
+    r = x
+    if x.op == "ite":
+        c, a, b = x.args
+        ba = ext(a, pos, pos)
+        bb = ext(b, pos, pos)
+        if ba.op == "c" and ba.val != val:
+            r = restrict_bit(b, pos, val, memo)
+        elif bb.op == "c" and bb.val != val:
+            r = restrict_bit(a, pos, val, memo)
+        else:
+            r = ite(c, restrict_bit(a, pos, val, memo), restrict_bit(b, pos, val, memo))
+    elif x.op == "cat":
+        # find the part that holds the bit
+        lo = x.w
+        parts = list(x.args)
+        for i, p in enumerate(parts):
+            lo -= p.w
+            if lo <= pos:
+                if p.op in ("ite", "cat"):
+                    parts[i] = restrict_bit(p, pos - lo, val, memo)
+                    r = cat(parts)
+                break
+    memo[key] = r
+    return r
+
+
+def substitute(t, model, memo=None):
+    """partial evaluation: replace the variables named in `model` by constants and re-simplify"""
+    if memo is None:
+        memo = {}
+    stack = [t]
+    while stack:
+        x = stack[-1]
+        if x.id in memo:
+            stack.pop()
+            continue
+        pending = [a for a in x.args if a.id not in memo]
+        if pending:
+            stack.extend(pending)
+            continue
+        stack.pop()
+        op = x.op
+        av = [memo[a.id] for a in x.args]
+        if op == "c":
+            r = x
+        elif op == "v":
+            r = const(x.w, model[x.val]) if x.val in model else x
+        elif all(p is q for p, q in zip(av, x.args)):
+            r = x
+        elif op == "cat":
+            r = cat(av)
+        elif op == "ext":
+            r = ext(av[0], x.val[0], x.val[1])
+        elif op == "ite":
+            r = ite(av[0], av[1], av[2])
+        elif op == "eq":
+            r = eq(av[0], av[1])
+        elif op == "not":
+            r = not_(av[0])
+        elif op in ("and", "or", "xor"):
+            r = _mk_bitwise(op, av)
+        elif op == "add":
+            r = add(av[0], av[1])
+        elif op == "sub":
+            r = sub(av[0], av[1])
+        elif op == "mul":
+            r = mul(av[0], av[1])
+        elif op == "udiv":
+            r = udiv(av[0], av[1])
+        elif op == "urem":
+            r = urem(av[0], av[1])
+        elif op == "ult":
+            r = ult(av[0], av[1])
+        elif op == "ule":
+            r = ule(av[0], av[1])
+        elif op == "uf":
+            r = uf(x.val, av[0] if av else None, x.w)
+        else:
+            raise ValueError(op)
+        memo[x.id] = r
+    return memo[t.id]
 
 
 def zext(a, w):
@@ -446,7 +637,21 @@ def _ident(name):
     return "|%s|" % name
 
 
-def emit(goals):
+_BOOL_OPS = ("and", "or", "not", "xor", "c")
+
+
+def _is_atom(x):
+    """for the propositional abstraction: a 1-bit term that is not a Boolean connective"""
+    if x.w != 1:
+        return False
+    if x.op in _BOOL_OPS:
+        return False
+    if x.op == "ite":
+        return False
+    return True
+
+
+def emit(goals, abstract=False):
     """Return (script_lines, vars, ufs) defining every term reachable from `goals`.
 
     Non-leaf terms become (define-fun tN () (_ BitVec w) ...).  `vars` maps name->width,
@@ -464,6 +669,8 @@ def emit(goals):
             continue
         seen.add(x.id)
         stack.append((x, True))
+        if abstract and _is_atom(x):
+            continue
         for a in x.args:
             if a.id not in seen:
                 stack.append((a, False))
@@ -473,6 +680,8 @@ def emit(goals):
     def ref(t):
         if t.op == "c":
             return _bv(t.w, t.val)
+        if abstract and _is_atom(t):
+            return "|abs_%d|" % t.id
         if t.op == "v":
             return _ident(t.val)
         return "t%d" % t.id
@@ -480,6 +689,9 @@ def emit(goals):
     for x in order:
         op = x.op
         if op == "c":
+            continue
+        if abstract and _is_atom(x):
+            vars_["abs_%d" % x.id] = 1
             continue
         if op == "v":
             vars_[x.val] = x.w
@@ -543,6 +755,8 @@ class Solver:
         self.p = subprocess.Popen(cmd, stdin=subprocess.PIPE, stdout=subprocess.PIPE,
                                   stderr=subprocess.STDOUT, text=True, bufsize=1)
         self.declared = {}
+        self.abstract_tried = 0
+        self.abstract_closed = 0
         self.time = 0.0
         self.queries = 0
         self._send("(set-option :print-success false)")
@@ -583,7 +797,41 @@ class Solver:
             if buf.strip() and depth <= 0:
                 return buf.strip()
 
-    def check(self, goal, want_model=True):
+    def restart(self):
+        try:
+            self.p.kill()
+        except Exception:
+            pass
+        t, q = self.time, self.queries
+        self.__init__(self.kind, self.timeout_s)
+        self.time, self.queries = t, q
+
+    def check(self, goal, want_model=True, timeout_s=None, abstract=False):
+        """watchdog wrapper: a solver that does not answer within the time limit is killed and
+        restarted, and the query is reported as unknown (never as a pass)"""
+        import threading
+        limit = timeout_s or self.timeout_s
+        if goal.op != "c" and self.kind.startswith("z3"):
+            self._send("(set-option :timeout %d)" % (limit * 1000))
+        timer = threading.Timer(limit + 15, lambda: self.p.kill())
+        timer.start()
+        try:
+            if abstract and goal.op != "c":
+                # propositional abstraction: every non-Boolean 1-bit subterm becomes a free atom.
+                # unsat under the abstraction implies unsat; anything else falls through to the full query
+                r, _ = self._check(goal, False, abstract=True)
+                self.abstract_tried += 1
+                if r == "unsat":
+                    self.abstract_closed += 1
+                    return "unsat", None
+            return self._check(goal, want_model)
+        except (SolverError, BrokenPipeError, OSError) as e:
+            self.restart()
+            return "unknown", "solver killed after %ds (%s)" % (limit + 15, str(e)[:100])
+        finally:
+            timer.cancel()
+
+    def _check(self, goal, want_model=True, abstract=False):
         """Is `goal` (a 1-bit term) satisfiable?  Returns ('unsat', None) | ('sat', model) |
         ('unknown', reason).  Any solver '(error' output is reported as 'unknown'."""
         t0 = time.time()
@@ -593,7 +841,7 @@ class Solver:
             if goal.val == 0:
                 return "unsat", None
             return "sat", {}
-        lines, vars_, ufs, ref = emit([goal])
+        lines, vars_, ufs, ref = emit([goal], abstract)
         self._send("(push 1)")
         for name, w in vars_.items():
             self._send("(declare-const %s (_ BitVec %d))" % (_ident(name), w))
